@@ -274,7 +274,8 @@ fn render_def(d: &Value) -> String {
     t + " }\n"
 }
 
-/// layouts: std (qregs, creg, statements) / creg_first / late (the last qreg is declared after the statements)
+/// layouts: std (qregs, creg, statements) / creg_first / late (the last qreg is declared after the statements) /
+/// creg_mid (the creg is declared directly before the first measure / if, after any gate statements that precede it)
 fn render_prog(p: &Value) -> String {
     let regs = p["regs"].as_array().unwrap();
     let ncb = p["ncb"].as_u64().unwrap();
@@ -295,15 +296,29 @@ fn render_prog(p: &Value) -> String {
     for r in &regs[..early] {
         t += &decl(r);
     }
-    if layout != "creg_first" {
+    if layout != "creg_first" && layout != "creg_mid" {
         t += &creg;
     }
     if defs_mid {
         t += &defs;
     }
+    // creg_mid: the classical register is declared where OpenQASM 2 still allows it at the latest, directly before the first
+    // statement that names it (measure / if), i.e. possibly AFTER gate statements (seed C14_e: a front end that looks for
+    // declarations only in a header)
+    fn uses_c(s: &Value) -> bool {
+        matches!(s["s"].as_str(), Some("measure") | Some("if"))
+    }
+    let mut creg_pending = layout == "creg_mid";
     for s in p["stmts"].as_array().unwrap() {
+        if creg_pending && uses_c(s) {
+            t += &creg;
+            creg_pending = false;
+        }
         t += &render_stmt(regs, s);
         t += "\n";
+    }
+    if creg_pending {
+        t += &creg;
     }
     for r in &regs[early..] {
         t += &decl(r);
@@ -528,7 +543,7 @@ fn enum_progs(emit: &mut impl FnMut(Value)) {
             stmts.push(gate_stmt("ccx", &[], "kpi_d", &[w[2], w[0], w[1]]));
         }
         stmts.push(gate_stmt("rz", &[(3, 4)], "kpi_d", &[*refs.last().unwrap()]));
-        for layout in ["std", "creg_first", "late"] {
+        for layout in ["std", "creg_first", "late", "creg_mid"] {
             emit(prog(&regs, 1, layout, stmts.clone()));
         }
         emit(prog(&regs, 0, "std", vec![]));
@@ -546,7 +561,8 @@ fn enum_progs(emit: &mut impl FnMut(Value)) {
                 2 => vec![g1.clone(), bad.clone(), g2.clone()],
                 _ => vec![g1.clone(), g2.clone(), bad.clone()],
             };
-            emit(prog(&regs, 2, "std", stmts));
+            emit(prog(&regs, 2, "std", stmts.clone()));
+            emit(prog(&regs, 2, "creg_mid", stmts));
         }
     }
     // (c) every phase k/d, d <= 16, in every spelling; rz and rx alternate
@@ -657,7 +673,7 @@ fn random_prog(r: &mut StdRng) -> Value {
         let at = r.random_range(0..=stmts.len());
         stmts.insert(at, bad);
     }
-    let layout = ["std", "creg_first", "late"][r.random_range(0..3)];
+    let layout = ["std", "creg_first", "late", "creg_mid"][r.random_range(0..4)];
     prog(&regs, r.random_range(1..=3usize), layout, stmts)
 }
 
@@ -1046,6 +1062,6 @@ fn random_xprog(r: &mut StdRng) -> Value {
             stmts.insert(at, bad);
         }
     }
-    let layout = ["std", "creg_first", "late"][r.random_range(0..3)];
+    let layout = ["std", "creg_first", "late", "creg_mid"][r.random_range(0..4)];
     xprog(&regs, defs, ["first", "mid"][r.random_range(0..2)], layout, stmts)
 }
